@@ -51,6 +51,8 @@ fn elem_name(e: &ElementaryTypeName) -> &'static str {
         ElementaryTypeName::DWORD => "DWORD",
         ElementaryTypeName::LWORD => "LWORD",
         ElementaryTypeName::WSTRING => "WSTRING",
+        #[allow(unreachable_patterns)]
+        _ => panic!("ironplc dsl variant unknown to the verification harness"),
     }
 }
 
@@ -62,11 +64,15 @@ fn prec_of(e: &ExprKind) -> u8 {
             CompareOp::And => 3,
             CompareOp::Eq | CompareOp::Ne => 4,
             CompareOp::Lt | CompareOp::Gt | CompareOp::LtEq | CompareOp::GtEq => 5,
+            #[allow(unreachable_patterns)]
+            _ => panic!("ironplc dsl variant unknown to the verification harness"),
         },
         ExprKind::BinaryOp(b) => match b.op {
             Operator::Add | Operator::Sub => 6,
             Operator::Mul | Operator::Div | Operator::Mod => 7,
             Operator::Pow => 8,
+            #[allow(unreachable_patterns)]
+            _ => panic!("ironplc dsl variant unknown to the verification harness"),
         },
         ExprKind::UnaryOp(_) => 9,
         _ => 10,
@@ -415,6 +421,8 @@ impl<'a, 't> Printer<'a, 't> {
                 }
                 self.g.hit("lit.bitstring");
             }
+            #[allow(unreachable_patterns)]
+            _ => panic!("ironplc dsl variant unknown to the verification harness"),
         }
     }
 
@@ -424,6 +432,8 @@ impl<'a, 't> Printer<'a, 't> {
             LocationPrefix::I => 'I',
             LocationPrefix::Q => 'Q',
             LocationPrefix::M => 'M',
+            #[allow(unreachable_patterns)]
+            _ => panic!("ironplc dsl variant unknown to the verification harness"),
         });
         match a.size {
             SizePrefix::Unspecified => s.push('*'),
@@ -433,6 +443,8 @@ impl<'a, 't> Printer<'a, 't> {
             SizePrefix::W => s.push('W'),
             SizePrefix::D => s.push('D'),
             SizePrefix::L => s.push('L'),
+            #[allow(unreachable_patterns)]
+            _ => panic!("ironplc dsl variant unknown to the verification harness"),
         }
         let parts: Vec<String> = a.address.iter().map(|v| v.to_string()).collect();
         s.push_str(&parts.join("."));
@@ -477,6 +489,8 @@ impl<'a, 't> Printer<'a, 't> {
                 self.o.p_tight(")");
             }
             SubrangeSpecificationKind::Type(t) => self.type_name(t),
+            #[allow(unreachable_patterns)]
+            _ => panic!("ironplc dsl variant unknown to the verification harness"),
         }
     }
     fn array_spec(&mut self, s: &ArraySpecificationKind) {
@@ -497,6 +511,8 @@ impl<'a, 't> Printer<'a, 't> {
                 self.o.kw("OF");
                 self.type_name(&sr.type_name);
             }
+            #[allow(unreachable_patterns)]
+            _ => panic!("ironplc dsl variant unknown to the verification harness"),
         }
     }
     fn array_init_elem(&mut self, e: &ArrayInitialElementKind) {
@@ -513,6 +529,8 @@ impl<'a, 't> Printer<'a, 't> {
                 self.o.glue().p_tight(")");
                 self.g.hit("array.init.repeated");
             }
+            #[allow(unreachable_patterns)]
+            _ => panic!("ironplc dsl variant unknown to the verification harness"),
         }
     }
     fn array_init(&mut self, init: &[ArrayInitialElementKind]) {
@@ -542,6 +560,8 @@ impl<'a, 't> Printer<'a, 't> {
                 StructInitialValueAssignmentKind::EnumeratedValue(ev) => self.enum_value(ev),
                 StructInitialValueAssignmentKind::Array(a) => self.array_init(a),
                 StructInitialValueAssignmentKind::Structure(s) => self.struct_init(s),
+                #[allow(unreachable_patterns)]
+                _ => panic!("ironplc dsl variant unknown to the verification harness"),
             }
         }
         self.o.p_tight(")");
@@ -623,6 +643,8 @@ impl<'a, 't> Printer<'a, 't> {
                 self.type_name(t);
                 self.g.hit("init.late");
             }
+            #[allow(unreachable_patterns)]
+            _ => panic!("ironplc dsl variant unknown to the verification harness"),
         }
     }
 
@@ -634,6 +656,8 @@ impl<'a, 't> Printer<'a, 't> {
                 match &e.spec_init.spec {
                     EnumeratedSpecificationKind::TypeName(t) => self.type_name(t),
                     EnumeratedSpecificationKind::Values(v) => self.enum_values(&v.values),
+                    #[allow(unreachable_patterns)]
+                    _ => panic!("ironplc dsl variant unknown to the verification harness"),
                 }
                 if let Some(v) = &e.spec_init.default {
                     self.o.op(":=");
@@ -706,6 +730,8 @@ impl<'a, 't> Printer<'a, 't> {
                 self.type_name(&l.base_type_name);
                 self.g.hit("type.latebound");
             }
+            #[allow(unreachable_patterns)]
+            _ => panic!("ironplc dsl variant unknown to the verification harness"),
         }
     }
 
@@ -722,6 +748,8 @@ impl<'a, 't> Printer<'a, 't> {
             DeclarationQualifier::NonRetain => {
                 self.o.kw("NON_RETAIN");
             }
+            #[allow(unreachable_patterns)]
+            _ => panic!("ironplc dsl variant unknown to the verification harness"),
         }
     }
 
@@ -798,6 +826,8 @@ impl<'a, 't> Printer<'a, 't> {
             VariableType::External => "VAR_EXTERNAL",
             VariableType::Global => "VAR_GLOBAL",
             VariableType::Access => "VAR_ACCESS",
+            #[allow(unreachable_patterns)]
+            _ => panic!("ironplc dsl variant unknown to the verification harness"),
         };
         self.o.line().kw(kw);
         self.qualifier_kw(&v0.qualifier);
@@ -815,6 +845,8 @@ impl<'a, 't> Printer<'a, 't> {
             DeclarationQualifier::Retain => self.g.hit("qual.retain"),
             DeclarationQualifier::NonRetain => self.g.hit("qual.non_retain"),
             DeclarationQualifier::Unspecified => {}
+            #[allow(unreachable_patterns)]
+            _ => panic!("ironplc dsl variant unknown to the verification harness"),
         }
         let mut i = 0;
         while i < vars.len() {
@@ -844,6 +876,8 @@ impl<'a, 't> Printer<'a, 't> {
                         self.address(&d.address_assignment);
                         self.g.hit("var.located");
                     }
+                    #[allow(unreachable_patterns)]
+                    _ => panic!("ironplc dsl variant unknown to the verification harness"),
                 }
             }
             self.o.p(":");
@@ -859,6 +893,8 @@ impl<'a, 't> Printer<'a, 't> {
         match v {
             Variable::Direct(a) => self.address(a),
             Variable::Symbolic(s) => self.sym_var(s),
+            #[allow(unreachable_patterns)]
+            _ => panic!("ironplc dsl variant unknown to the verification harness"),
         }
     }
     pub fn sym_var(&mut self, s: &SymbolicVariableKind) {
@@ -885,6 +921,8 @@ impl<'a, 't> Printer<'a, 't> {
                 self.ident(&st.field);
                 self.g.hit("var.struct");
             }
+            #[allow(unreachable_patterns)]
+            _ => panic!("ironplc dsl variant unknown to the verification harness"),
         }
     }
     fn params(&mut self, ps: &[ParamAssignmentKind]) {
@@ -916,6 +954,8 @@ impl<'a, 't> Printer<'a, 't> {
                     self.variable(&out.tgt);
                     self.g.hit("param.output");
                 }
+                #[allow(unreachable_patterns)]
+                _ => panic!("ironplc dsl variant unknown to the verification harness"),
             }
         }
         self.o.p_tight(")");
@@ -951,6 +991,8 @@ impl<'a, 't> Printer<'a, 't> {
                     CompareOp::Gt => self.o.op(">"),
                     CompareOp::LtEq => self.o.op("<="),
                     CompareOp::GtEq => self.o.op(">="),
+                    #[allow(unreachable_patterns)]
+                    _ => panic!("ironplc dsl variant unknown to the verification harness"),
                 };
                 self.expr(&c.right, p + 1);
                 self.g.hit("expr.compare");
@@ -964,6 +1006,8 @@ impl<'a, 't> Printer<'a, 't> {
                     Operator::Div => self.o.op("/"),
                     Operator::Mod => self.o.wordop("MOD"),
                     Operator::Pow => self.o.op("**"),
+                    #[allow(unreachable_patterns)]
+                    _ => panic!("ironplc dsl variant unknown to the verification harness"),
                 };
                 self.expr(&b.right, p + 1);
                 self.g.hit("expr.binary");
@@ -977,6 +1021,8 @@ impl<'a, 't> Printer<'a, 't> {
                     UnaryOp::Not => {
                         self.o.wordop("NOT");
                     }
+                    #[allow(unreachable_patterns)]
+                    _ => panic!("ironplc dsl variant unknown to the verification harness"),
                 }
                 // operand must be a primary expression
                 self.expr(&u.term, 10);
@@ -1006,6 +1052,8 @@ impl<'a, 't> Printer<'a, 't> {
                 self.ident(&l.name);
                 self.g.hit("expr.latebound");
             }
+            #[allow(unreachable_patterns)]
+            _ => panic!("ironplc dsl variant unknown to the verification harness"),
         }
         if paren {
             self.o.p_tight(")");
@@ -1101,6 +1149,8 @@ impl<'a, 't> Printer<'a, 't> {
                                 self.enum_value(ev);
                                 self.g.hit("case.enum");
                             }
+                            #[allow(unreachable_patterns)]
+                            _ => panic!("ironplc dsl variant unknown to the verification harness"),
                         }
                     }
                     self.o.p_tight(":");
@@ -1161,6 +1211,8 @@ impl<'a, 't> Printer<'a, 't> {
                 self.o.p_tight(";");
                 self.g.hit("stmt.exit");
             }
+            #[allow(unreachable_patterns)]
+            _ => panic!("ironplc dsl variant unknown to the verification harness"),
         }
     }
 
@@ -1169,6 +1221,8 @@ impl<'a, 't> Printer<'a, 't> {
         match a {
             ActionTimeKind::Duration(d) => self.duration(d),
             ActionTimeKind::VariableName(v) => self.ident(v),
+            #[allow(unreachable_patterns)]
+            _ => panic!("ironplc dsl variant unknown to the verification harness"),
         }
     }
     fn action_assoc(&mut self, a: &ActionAssociation) {
@@ -1190,6 +1244,8 @@ impl<'a, 't> Printer<'a, 't> {
                 ActionQualifier::SL(t) => ("SL", Some(t)),
                 ActionQualifier::PR(t) => ("P1", Some(t)),
                 ActionQualifier::PF(t) => ("P0", Some(t)),
+                #[allow(unreachable_patterns)]
+                _ => panic!("ironplc dsl variant unknown to the verification harness"),
             };
             self.o.textkw(name);
             if let Some(t) = time {
@@ -1287,6 +1343,8 @@ impl<'a, 't> Printer<'a, 't> {
                         self.o.line().kw("END_ACTION");
                         self.g.hit("sfc.action");
                     }
+                    #[allow(unreachable_patterns)]
+                    _ => panic!("ironplc dsl variant unknown to the verification harness"),
                 }
             }
         }
@@ -1298,6 +1356,8 @@ impl<'a, 't> Printer<'a, 't> {
             FunctionBlockBodyKind::Empty => {
                 self.g.hit("body.empty");
             }
+            #[allow(unreachable_patterns)]
+            _ => panic!("ironplc dsl variant unknown to the verification harness"),
         }
     }
 
@@ -1375,6 +1435,8 @@ impl<'a, 't> Printer<'a, 't> {
                             ProgramConnectionSourceKind::EnumeratedValue(e) => self.enum_value(e),
                             ProgramConnectionSourceKind::GlobalVarReference(g) => self.global_ref(g),
                             ProgramConnectionSourceKind::DirectVariable(a) => self.address(a),
+                            #[allow(unreachable_patterns)]
+                            _ => panic!("ironplc dsl variant unknown to the verification harness"),
                         }
                     }
                     for s in &p.sinks {
@@ -1389,6 +1451,8 @@ impl<'a, 't> Printer<'a, 't> {
                         match &s.dst {
                             ProgramConnectionSinkKind::GlobalVarReference(g) => self.global_ref(g),
                             ProgramConnectionSinkKind::DirectVariable(a) => self.address(a),
+                            #[allow(unreachable_patterns)]
+                            _ => panic!("ironplc dsl variant unknown to the verification harness"),
                         }
                     }
                     self.o.p_tight(")");
@@ -1520,6 +1584,8 @@ impl<'a, 't> Printer<'a, 't> {
                     self.g.hit("pou.program");
                 }
                 LibraryElementKind::ConfigurationDeclaration(c) => self.configuration(c),
+                #[allow(unreachable_patterns)]
+                _ => panic!("ironplc dsl variant unknown to the verification harness"),
             }
         }
     }
@@ -1581,12 +1647,16 @@ fn block_kind(v: &VarDecl) -> (u8, u8, u8) {
         VariableType::External => 5,
         VariableType::Global => 6,
         VariableType::Access => 7,
+        #[allow(unreachable_patterns)]
+        _ => panic!("ironplc dsl variant unknown to the verification harness"),
     };
     let q = match v.qualifier {
         DeclarationQualifier::Unspecified => 0,
         DeclarationQualifier::Constant => 1,
         DeclarationQualifier::Retain => 2,
         DeclarationQualifier::NonRetain => 3,
+        #[allow(unreachable_patterns)]
+        _ => panic!("ironplc dsl variant unknown to the verification harness"),
     };
     let l = match &v.identifier {
         VariableIdentifier::Symbol(_) => 0,
@@ -1597,6 +1667,8 @@ fn block_kind(v: &VarDecl) -> (u8, u8, u8) {
                 1
             }
         }
+        #[allow(unreachable_patterns)]
+        _ => panic!("ironplc dsl variant unknown to the verification harness"),
     };
     (t, q, l)
 }
